@@ -225,6 +225,7 @@ pub fn gen_case(prop: &str, thorough: bool, weak: bool, rng: &mut Rng) -> Case {
             p.min_threads = 1;
         }
         "C12" => {
+            p.weak_containers = true;
             p.max_conts = 3;
             p.kinds = ALL_KINDS.to_vec();
             p.shared_values = true;
